@@ -10,6 +10,7 @@ import random
 import subprocess
 import sys
 import tempfile
+import zlib
 import time
 import traceback
 
@@ -58,7 +59,18 @@ class Repo:
         self.TimeRecurrence = self.data.TimeRecurrence
         self.CALENDAR = self.data.CALENDAR
 
-    def set_mode(self, mode):
+    def set_mode(self, mode, case=None):
+        """Select calendar `mode` (canonical name).  With a case, about a
+        quarter of the non-Gregorian cases (chosen by a checksum of the
+        case, so a replay makes the same choice; or case["alias"]) select
+        the mode by its documented alias spelling "360_day" etc."""
+        if case is not None and mode != "gregorian":
+            alias = case.get("alias") if isinstance(case, dict) else None
+            if alias is None:
+                alias = zlib.crc32(json.dumps(
+                    case, sort_keys=True, default=str).encode()) % 4 == 0
+            if alias:
+                mode = mode.replace("day", "_day")
         if self.CALENDAR.mode != mode:
             self.CALENDAR.set_mode(mode)
 
